@@ -87,6 +87,33 @@ def h_dispatch(I, fi):
             "grids with fewer than 1000 points use the direct convolution, larger ones the FFT convolution; exactly one of them runs, on (child_1, child_2), and its result is returned", kind="post")
 
 
+def replay_dispatch(name, model):
+    """native replay of a refuted dispatch obligation: the real `_convolve_two_children` body with the two routines replaced by recorders, over array shapes on both
+    sides of the switch and with few / many samples; the route may depend on the grid length only"""
+    if "dispatch" not in name:
+        return None
+    import numpy as np
+    import phyclone.tree.utils as TUm
+
+    body = getattr(TUm._convolve_two_children, "__wrapped__", TUm._convolve_two_children)
+    saved = (TUm._np_conv_dims, TUm.fft_convolve_two_children)
+    bad = []
+    try:
+        for D, G in ((1, 5), (1, 999), (1, 1000), (2, 1001), (10, 101), (12, 500), (40, 30), (3, 999), (1, 1)):
+            calls = []
+            TUm._np_conv_dims = lambda a, b: (calls.append("direct"), np.zeros_like(a))[1]
+            TUm.fft_convolve_two_children = lambda a, b: (calls.append("fft"), np.zeros_like(a))[1]
+            body(np.zeros((D, G)), np.zeros((D, G)))
+            want = ["direct"] if G < 1000 else ["fft"]
+            if calls != want:
+                bad.append({"samples": D, "grid_size": G, "routines_run": calls, "expected": want})
+    finally:
+        TUm._np_conv_dims, TUm.fft_convolve_two_children = saved
+    if bad:
+        return {"reproduced": True, "input": bad[0], "all_failing_shapes": bad[:6], "cmd": "_convolve_two_children.__wrapped__(zeros((samples, grid)), zeros((samples, grid))) with both routines replaced by recorders"}
+    return {"reproduced": False, "note": "on the nine shapes tried the route depends on the grid length only"}
+
+
 def h_sub_compute_S(I, fi):
     P = I.P
     D, G, d, k = dims(I)
@@ -221,7 +248,7 @@ def h_compute_log_S(I, fi):
 
 def verify_all(ctx, repo, prop):
     dsl.verify(ctx, repo, dsl.Registry(), prop, [TU + "._np_conv_dims", MA + ".fft_convolve_two_children"], h_conv, expect_covers=["direct", "fft"])
-    dsl.verify(ctx, repo, dsl.Registry(), prop, TU + "._convolve_two_children", h_dispatch, expect_covers=["dispatch.direct", "dispatch.fft"])
+    dsl.verify(ctx, repo, dsl.Registry(), prop, TU + "._convolve_two_children", h_dispatch, expect_covers=["dispatch.direct", "dispatch.fft"], concretise=replay_dispatch)
     dsl.verify(ctx, repo, _generic(TU + "._sub_compute_S"), prop, TU + "._sub_compute_S", h_sub_compute_S, expect_covers=["prefix-sum"])
     dsl.verify(ctx, repo, dsl.Registry(), prop, TU + ".compute_log_D", h_compute_log_D, expect_covers=["no-children", "one-child", "many-children", "log_D.step"])
     dsl.verify(ctx, repo, _generic(TU + "._sub_compute_S"), prop, TU + ".compute_log_S", h_compute_log_S, expect_covers=["S-empty", "S-nonempty"])
